@@ -59,9 +59,12 @@ def worker(args):
             def grab(ctx, k, act, d, nv, problems, holder=ctx_holder):
                 holder["ctx"] = ctx
 
+            # every third program: the last operation is CONSTRUCTED under B as well (the configuration in effect at
+            # construction differs between an operand and its consumer)
+            split = n % 3 == 0 and not any(a["a"] in replay.INPLACE for a in beh["prog"][-1:])
             try:
                 with dask.config.set(cfg_build):
-                    replay.replay_one(beh, grids, (grab,), compute_all=False, opts={})
+                    replay.replay_one(beh, grids, (grab,), compute_all=False, opts={"config_last": cfg_compute} if split else {})
             except replay.SpecMismatch as ex:
                 out.machinery.append(str(ex))
                 continue
@@ -75,7 +78,8 @@ def worker(args):
             exp = ctx["cur"][h]
             obs = []
             with dask.config.set(cfg_compute):
-                obs.append({"how": "built-under-A-computed-under-B", "val": _val(d, own=True)})
+                obs.append({"how": "operands-built-under-A-last-step-built-and-computed-under-B" if split
+                            else "built-under-A-computed-under-B", "val": _val(d, own=True)})
             with dask.config.set(cfg_build):
                 obs.append({"how": "computed-again-under-A", "val": _val(d)})
             # an earlier collection of this process, computed again now (after later programs were built and lowered)
